@@ -1,5 +1,6 @@
 """C13 — Protocols forward exactly the selected reader's messages, payloads only if valid."""
 from props import hdlc_model as M, proto_model as PM
+from pyvc import run
 
 def build(repo, tier, seed):
     r = M.groups_result([("protocol", PM.group_protocol, (repo,))])
@@ -7,9 +8,14 @@ def build(repo, tier, seed):
     r.assumptions = ["readers and messages are abstract objects: read(data) returns a list of messages, a message has is_valid / payload / as_bytes without side effects on the protocol",
                      "asyncio.Queue.put_nowait appends to an unbounded queue (ghost sequence)", "reader objects are truthy (MeterReaderBase defines neither __bool__ nor __len__)",
                      "candidate lists of 0..3 readers are enumerated (the property's configurations have at most two); message lists have any length"]
-    r.not_decided = ["last sentence of C13 (on a clean stream every payload arrives, whichever candidate order): needs 'the other reader yields no valid message first', which auto-detection does not guarantee for adversarial payloads; reduces to C02/C05 for single-candidate lists"]
+    r.not_decided = ["last sentence of C13 (on a clean stream every payload arrives, whichever candidate order): with a single candidate it is C02 / C05 plus the contract above; with two candidates it also needs 'the other "
+                     "reader yields no valid message first', which is FALSE for a frame whose payload is a complete valid P1 readout (known finding, reported below) and is otherwise only checked by the bounded run on the real readers"]
     r.explanation = ("C13: per-call contract of data_received with a ghost queue: selected reader -> queue' = queue ++ forwarded(read(data)); otherwise every candidate is fed once in list order until one "
                      "returns a valid message, that reader is selected, the candidate list cleared, all messages of that call forwarded, later candidates not fed; no selection -> queue unchanged. "
                      "message_received of the payload protocol forwards exactly valid messages with non-empty payload (the payload), the message protocol every message. By induction over calls (the "
                      "contract is the step) the queue holds exactly the forwarded messages of the selected reader from the selecting call on, in order, without loss or duplication.")
+    b = run.rt_call("C13", "clean_stream_selection", {"seed": seed, "n": 90 if tier == "quick" else 3000})
+    r.bounded.append(b if "name" in b else {"name": "clean_stream_selection", "error": b.get("error", b)})
+    b = run.rt_call("C13", "selection_known_finding", {})
+    r.bounded.append(b if "name" in b else {"name": "selection_known_finding", "error": b.get("error", b)})
     return r
